@@ -248,11 +248,12 @@ let run (line : string) : string =
          match String.split_on_char ':' t with
          | [tag; k; v] -> ((tag = "1"), (z_of_string k, z_of_string v))
          | _ -> failwith "bad map op") (split ',' (a 0)) in
-       let (((finds, final), keys), values) = zmap_run ops in
-       Printf.sprintf "([%s];[%s];%s;%s)"
+       let ((((finds, final), keys), values), union) = zmap_run ops in
+       let pairs l = String.concat "," (List.map (fun (k, v) -> "(" ^ string_of_z k ^ ";" ^ string_of_z v ^ ")") l) in
+       Printf.sprintf "([%s];[%s];%s;%s;[%s])"
          (String.concat "," (List.map (function None -> "N" | Some v -> "S" ^ string_of_z v) finds))
-         (String.concat "," (List.map (fun (k, v) -> "(" ^ string_of_z k ^ ";" ^ string_of_z v ^ ")") final))
-         (show_zlist keys) (show_zlist values)
+         (pairs final)
+         (show_zlist keys) (show_zlist values) (pairs union)
      | "sort" -> (match zsort (zlist (a 0)) with Done l -> show_zlist l | OutOfFuel -> "OutOfFuel")
      | "filter_gt" -> show_zlist (zfilter_gt (z_of_string (a 0)) (zlist (a 1)))
      | "filter_even" -> show_zlist (zfilter_even (zlist (a 0)))
